@@ -21,8 +21,34 @@ def is_soa_probe(x):
     return x[0] == "call" and x[1] in (Z + "Zone::soa_rr", Z + "Zone::get_soa")
 
 
+def _kept_rule(ctx):
+    prog = ctx.prog
+    bad = []
+    n = 0
+    for key in ("dns_resolver::recursive::resolve_recursive_notimeout", "dns_resolver::recursive::resolve_with_nameserver_response",
+                "dns_resolver::forwarding::resolve_forwarding_notimeout", "dns_resolver::recursive::resolve_combined_recursive", "dns_resolver::local::resolve_local"):
+        f = prog.body_of(key)
+        n += 1
+        for b, t in f.calls():
+            nm = t.get("resolved") or t.get("callee") or ""
+            tl = nm.rsplit("::", 1)[-1].split("<")[0]
+            emptying = (nm.startswith("std::mem::") and tl in ("take", "replace", "swap")) or \
+                ("Vec" in nm and tl in ("clear", "drain", "truncate", "retain", "split_off", "remove", "swap_remove", "pop"))
+            if not emptying:
+                continue
+            tys = " ".join(f.local_ty(A.op_place(a)["l"]) for a in t["args"] if A.op_place(a) is not None)
+            if "Vec<dns_types::protocol::types::ResourceRecord>" in tys:
+                bad.append((A.short(key), tl, f.loc(b)))
+    ctx.check(not bad, "C01.9", "local-records-kept", "no record list is emptied / moved out of in the resolver cluster (%d functions)" % n,
+              "a record list is emptied by %s" % [(k, op) for k, op, _ in bad], bad[0][2] if bad else None)
+
+
 def run(ctx):
     prog = ctx.prog
+    _kept_rule(ctx)
+    from . import C09
+    from ..core import RuleAlias
+    C09.run(RuleAlias(ctx, {"C09.8": "C01.10"}))
     ctx.rule("C01.1", "resolve_local: from 'a zone was found' every path to a cache read crosses a 'zone is not authoritative' edge")
     ctx.rule("C01.2", "resolve_local: a non-authoritative zone answer reaches the cache only for ANY questions or an empty answer; otherwise exactly the zone's records are returned")
     ctx.rule("C01.3", "prioritising_merge drops new records whose (name, type) is already present; every call passes local data first and cache/upstream data second")
@@ -31,6 +57,8 @@ def run(ctx):
     ctx.rule("C01.6", "AuthoritativeNameError is built only from an authoritative zone's NameError; the NXDOMAIN rcode only from AuthoritativeNameError")
     ctx.rule("C01.7", "Authoritative results are built only in local.rs from the zone's own SOA; recursive/forwarding build only NonAuthoritative; AA set only in the authoritative arms")
     ctx.rule("C01.8", "names the zone owns are never answered with a referral built from the apex node's own NS records (shared with C02.5)")
+    ctx.rule("C01.9", "the records found locally stay in the list they are merged from: in the recursive / forwarding resolvers no Vec<ResourceRecord> is emptied or moved out of (mem::take / replace / swap, clear, drain, truncate) - ORIGIN does not see such writes, so they are looked for explicitly")
+    ctx.rule("C01.10", "the server keeps what the resolver marked authoritative: sections, AA and RCODE per result variant; SERVFAIL only for a reply with nothing in answer and authority (the rules of C09.8, decided here as well)")
     ctx.decline("equality of the answer with an oracle for every zone set x cache x upstream")
     from . import C02
     C02.apex_rules(ctx, "C01.8")
